@@ -611,7 +611,10 @@ def report(prop, tier, seed, results, extras, wall, rebaseline, replay):
             continue
         seen.add(key)
         print('KNOWN-FINDING: property=%s %s' % (prop, re.sub(r'^property=\S+\s*', '', k['text'])))
-    os.makedirs(os.path.join(VERIF, 'replays', prop), exist_ok=True)
+    rdir = os.path.join(VERIF, 'replays', prop)
+    os.makedirs(rdir, exist_ok=True)
+    for old in glob.glob(os.path.join(rdir, '*.json')):
+        os.remove(old)
     for u, f, nm in violations:
         rp = os.path.join(VERIF, 'replays', prop, slug(nm) + '.json')
         if u is None:
